@@ -24,7 +24,7 @@ RULE = ('fault enumeration on write(): (i) for generated valid scores, every nod
         'write() is called for every prior state of the destination (absent, empty, previous content) and the bytes are '
         'compared; (ii) source-free fault injection: a private exception is raised at every library LINE event executed '
         'inside write() before the document text exists; (iii) successful writes: bytes == declaration + to_string() in '
-        'UTF-8, with non-ASCII and non-BMP text; (iv) configurations: the same import / build / write / parse scenario in '
+        'UTF-8, with non-ASCII and non-BMP text and with every kind of line boundary inside text (LF, CR, CR LF, U+0085, U+2028, U+2029); (iv) configurations: the same import / build / write / parse scenario in '
         'subprocesses under the UTF-8 default, the real ASCII default (LC_ALL=C, no coercion, utf8 mode off), emulated '
         'Latin-1 and cp1252 defaults, and with EncodingWarning turned into an error. non-trivial = a fault point at which '
         'write() raised or a configuration run; distinct = distinct (score, node, failure kind, prior state) / (score, '
@@ -58,7 +58,8 @@ def gen_score(rnd, lib, nonascii=True):
                 t = ref.eltype(n.tag)
                 sb = ref.simple_base(t) if t in ref.ALL else t
                 if sb in ('xs:string',) and not len(n):
-                    n.text = rnd.choice(['Größe', 'naïve café', '作品', '𝄞 clef', 'plain', 'Ünïcödé'])
+                    n.text = rnd.choice(['Größe', 'naïve café', '作品', '𝄞 clef', 'plain', 'Ünïcödé', 'line\u2028separator',
+                                         'next\u0085line', 'para\u2029graph', 'two\nlines', 'cr\rlf\r\n', 'tab\there'])
         if ref.validate_doc(el):
             continue
         try:
